@@ -118,7 +118,8 @@ CHECKS["C11"] = dict(
          "definition on the sub-blocks taken in list order), DenseEqSparse, SwapSym and WholeLimit, reporting every failing site.",
     note="Clustering-type cross measures are defined on undirected networks only; 0/0 cases are withdrawn; "
          "internal_global_clustering has no sub-block definition (library averages whole-network clustering) and is covered by "
-         "WholeLimit only; CoupledClimateNetwork wrappers are not driven yet.",
+         "WholeLimit only; the n.s.i. cross average path length is a recorded finding (normalised with group 1 twice, "
+         "pinned by a repository test).",
     ref="6/C11")
 
 CHECKS["C19"] = dict(
@@ -157,8 +158,8 @@ CHECKS["C05"] = dict(
          "save->Load for graphml, graphmlz, pickle, gml) and TLC checks for every path N, n_links, link_density, adjacency (symmetric, "
          "empty diagonal), sp_A, embedded graph, node weights with total and mean, link attribute against the abstract network, and a "
          "panel of measures that consume the internal representation against the dense path.",
-    note="SpatialNetwork / GeoNetwork / ClimateNetwork save/Load with grid files are not driven yet; undirected_copy is not required "
-         "to keep link attributes.",
+    note="ClimateNetwork save / Load is a recorded finding (Load raises for every saved network); gml loses the node weights "
+         "(recorded finding); undirected_copy is not required to keep link attributes.",
     ref="6/C05")
 
 CHECKS["C06"] = dict(
@@ -182,7 +183,8 @@ CHECKS["C18"] = dict(
          "observed (diameter BEFORE average after an update) on the object and on a fresh twin.  TLC decides ERDef (ratio of two "
          "determinants of the integer conductance Laplacian), Metric, PathBound, Foster, Scaling, the aggregates, the defining sums of "
          "current-flow betweenness and admittive measures, and Functional after every update.",
-    note="Real-valued resistances only (complex impedances are covered by C01/C06 Functional checks of ResNetwork at most); "
+    note="Definitions (determinant ratios) for real resistances; complex impedances by linearity in a common complex factor, "
+         "the aggregates and Functional; "
          "current-flow kernels are float32: tolerance 2.5e-3; series/parallel laws are instances of ERDef on paths and cycles.",
     ref="6/C18")
 
@@ -236,8 +238,9 @@ CHECKS["C10"] = dict(
          "symmetrize_by_absmax, bounds, Gaussian mutual information -1/2 ln(1-r^2) through a generated ln table, Pearson (Tsonis) and "
          "Spearman (mid-ranks) climate similarities, agreement of compiled and pure-Python CouplingAnalysis at lag 0, invariance under "
          "positive affine maps and consistency under reordering of the series.",
-    note="PARTIAL: kNN and binned mutual information, non-Gaussian information transfer, partial correlation and the surrogate test "
-         "matrices are not decided (digamma / quantile-binning conventions have no integer definition); accuracy decided to 1.5e-3 "
+    note="PARTIAL: kNN mutual information and non-Gaussian (kNN / binned) information transfer are not decided beyond the relations "
+         "(digamma, random tie-breaking noise); the binned MI of CouplingAnalysis is decided against the value the library is "
+         "pinned to (recorded finding: normalised by T instead of T - tau_max); accuracy decided to 1.5e-3 "
          "(float32 kernels), not single precision; the climate classes store absolute similarities, so their sign is not compared.",
     ref="6/C10")
 
